@@ -1,2 +1,102 @@
-(* Props.C06 — placeholder; theorems are being added. *)
-Require Import PyStr DataRead.
+(* Props.C06 — exactly the NULL-valued samples of non-index curves become NaN.
+   Statements only; the proofs are in Proofs/DataReadProofs.v.
+
+   Reading.  After either engine has produced the columns (cells: CNum tok = the double
+   CPython's float() assigns to the token text, CNaN, CStr s = text), las.py applies the
+   header NULL per column: Model/DataRead.v null_columns nulleq strict 0 cols, where column
+   k of the list is curve k (k = 0 is the index), strict = (null_policy = 'strict') and
+   nulleq tok = (float(tok) == NULL value) is the ORACLE for IEEE equality (Model/Read.v
+   instantiates it from the ~Well NULL item).  Every theorem below holds FOR EVERY nulleq:
+   "however either is spelled" is exactly that the replacement depends on the token only
+   through nulleq, i.e. through the double it denotes.
+
+   Proved at full strength (all columns, all cells, unbounded sizes):
+     C06_iff            strict policy, float column, not the index: the column is mapped
+                        cell by cell, CNum t -> CNaN when nulleq t, everything else kept;
+     C06_iff_cellwise   the same as an iff for every position i: the result cell is NaN iff
+                        the input cell is NaN already or is a number equal to NULL, and every
+                        result cell that is not NaN is the input cell;
+     C06_index_kept     column 0 is returned unchanged under both policies;
+     C06_text_untouched a column containing a text cell is returned unchanged;
+     C06_none_policy    with null_policy='none' no column changes;
+     C06_columnwise     column j of the result depends on column j of the input only, with
+                        curve index k + j;
+     C06_length         the number of columns and every column length are preserved.
+   Not covered here: the write side (NaN -> str(NULL), write->read cycle) is checked on the
+   implementation by the harness (harness/props/c06.py) and belongs to the writer model of
+   C01/C16; the read substitutions of the other null policies are outside Model/Read.v.
+   Oracle assumption: nulleq (numeric equality of a sample and NULL). *)
+From Coq Require Import List NArith Bool String.
+Import ListNotations.
+Require Import PyStr DataRead DataReadProofs.
+Open Scope string_scope.
+Open Scope list_scope.
+
+Theorem C06_iff : forall (nulleq : list N -> bool) idx col,
+  is_float_col col = true -> idx <> 0%nat ->
+  null_column nulleq true idx col =
+  map (fun c => match c with CNum t => if nulleq t then CNaN else c | _ => c end) col.
+Proof. exact null_column_strict. Qed.
+
+Theorem C06_iff_cellwise : forall (nulleq : list N -> bool) idx col,
+  is_float_col col = true -> idx <> 0%nat ->
+  forall i c, nth_error col i = Some c ->
+  exists c', nth_error (null_column nulleq true idx col) i = Some c' /\
+    (c' = CNaN <-> (c = CNaN \/ exists t, c = CNum t /\ nulleq t = true)) /\
+    (c' <> CNaN -> c' = c).
+Proof. exact null_column_cellwise. Qed.
+
+Theorem C06_index_kept : forall (nulleq : list N -> bool) strict col,
+  null_column nulleq strict 0 col = col.
+Proof. exact null_column_index. Qed.
+
+Theorem C06_text_untouched : forall (nulleq : list N -> bool) strict idx col,
+  is_float_col col = false -> null_column nulleq strict idx col = col.
+Proof. exact null_column_text. Qed.
+
+Theorem C06_none_policy : forall (nulleq : list N -> bool),
+  (forall idx col, null_column nulleq false idx col = col) /\
+  (forall cols k, null_columns nulleq false k cols = cols).
+Proof. intros nulleq. split; [exact (null_column_none nulleq)|exact (null_columns_none nulleq)]. Qed.
+
+Theorem C06_columnwise : forall (nulleq : list N -> bool) strict cols k j,
+  (j < List.length cols)%nat ->
+  nth j (null_columns nulleq strict k cols) [] = null_column nulleq strict (k + j) (nth j cols []).
+Proof. exact null_columns_nth. Qed.
+
+Theorem C06_length : forall (nulleq : list N -> bool) strict cols k,
+  List.length (null_columns nulleq strict k cols) = List.length cols /\
+  forall j, List.length (nth j (null_columns nulleq strict k cols) []) = List.length (nth j cols []).
+Proof.
+  intros nulleq strict cols k. split;
+    [exact (null_columns_length nulleq strict cols k)|exact (null_columns_col_length nulleq strict cols k)].
+Qed.
+
+(* non-vacuity: NULL = -999.25 in two spellings; an index column, a float column holding
+   both spellings, a near-NULL value and a NaN, and a text column *)
+Definition ex_nulleq (t : list N) : bool :=
+  str_eqb t (s2l "-999.25") || str_eqb t (s2l "-9.9925E2").
+Definition ex_cols : list (list cell) :=
+  [ [CNum (s2l "-999.25"); CNum (s2l "2")];
+    [CNum (s2l "-999.25"); CNum (s2l "-9.9925E2"); CNum (s2l "-999.2500001"); CNaN];
+    [CStr (s2l "-999.25"); CNum (s2l "-999.25")] ].
+
+Example C06_ex_strict :
+  null_columns ex_nulleq true 0 ex_cols =
+  [ [CNum (s2l "-999.25"); CNum (s2l "2")];
+    [CNaN; CNaN; CNum (s2l "-999.2500001"); CNaN];
+    [CStr (s2l "-999.25"); CNum (s2l "-999.25")] ].
+Proof. vm_compute. reflexivity. Qed.
+Example C06_ex_hyps :
+  is_float_col (nth 1 ex_cols []) = true /\ is_float_col (nth 2 ex_cols []) = false /\ 1%nat <> 0%nat.
+Proof. repeat split. discriminate. Qed.
+Example C06_ex_none : null_columns ex_nulleq false 0 ex_cols = ex_cols.
+Proof. vm_compute. reflexivity. Qed.
+
+Print Assumptions C06_iff.
+Print Assumptions C06_iff_cellwise.
+Print Assumptions C06_index_kept.
+Print Assumptions C06_text_untouched.
+Print Assumptions C06_none_policy.
+Print Assumptions C06_columnwise.
+Print Assumptions C06_length.
